@@ -226,6 +226,61 @@ def h_history(cx, n, second, first=None, first_call='pivot'):
         cx.eq('A.x==b', _matmul(A0, X), B)
 
 
+def h_reuse_matrix(cx, n, which):
+    """the caller solves, then edits ITS matrix in place (same list objects) and solves again: the second answer
+    belongs to the edited matrix"""
+    L = geo.M('linalg')
+    A = _matrix(cx, n, 'a')
+    B = [[cx.real('b%d' % i)] for i in range(n)]
+    try:
+        if which == 'lu_solve':
+            L.lu_solve(A, B)
+        elif which == 'lu_decomposition':
+            L.lu_decomposition(A)
+        elif which == 'determinant':
+            L.matrix_determinant(A)
+        else:
+            L.matrix_inverse(A)
+    except ZeroDivisionError:
+        pass
+    d = cx.real('d')
+    A[0][0] = A[0][0] + d
+    A[n - 1][0] = A[n - 1][0] - d
+    A0 = _copy(A)
+    if which == 'lu_solve':
+        try:
+            X = L.lu_solve(A, B)
+        except ZeroDivisionError:
+            return
+        cx.eq('A.x==b', _matmul(A0, X), B)
+    elif which == 'lu_decomposition':
+        try:
+            Lm, U = L.lu_decomposition(A)
+        except ZeroDivisionError:
+            return
+        ok = True
+        for i in range(n):
+            for j in range(n):
+                if i < j and not cx.holds(Lm[i][j] == 0):
+                    ok = False
+        # (when a zero pivot was met the factors are not claimed)
+        piv = 1
+        for i in range(n):
+            piv = piv * U[i][i]
+        if cx.holds(piv != 0):
+            cx.eq('L.U==A', _matmul(Lm, U), A0)
+    elif which == 'determinant':
+        det = _nonsingular(cx, A0)
+        cx.eq('det==leibniz', L.matrix_determinant(A), det)
+    else:
+        _nonsingular(cx, A0)
+        try:
+            inv = L.matrix_inverse(A)
+        except ZeroDivisionError:
+            return
+        cx.eq('A.inv==I', _matmul(A0, inv), _ident(n))
+
+
 def h_vectors(cx, dim):
     L = geo.M('linalg')
     a = cx.reals('a', dim)
@@ -333,6 +388,8 @@ def instances(tier):
         if not quick:
             for first in sorted(FIRST3):
                 out.append(inst('history pivot[%s]-then-%s n3' % (first, second), h_history, timeout=2400, n=3, second=second, first=first))
+    for which in ('lu_solve', 'lu_decomposition', 'determinant', 'inverse'):
+        out.append(inst('matrix edited in place between two calls of %s n2' % which, h_reuse_matrix, timeout=900, n=2, which=which))
     for dim in (2, 3):
         out.append(inst('vectors dim%d' % dim, h_vectors, dim=dim))
     out.append(inst('matrices 2x3x2', h_matrices, r=2, c=3, c2=2))
